@@ -185,7 +185,7 @@ def run(run):
             col = "c1 %s%s COMMENT 'x'" % (ty, "(" + ",".join(ps) + ")" if ps else "")
             for ops in ([], ["ct0"], ["ct1"]):
                 cases.append(("CREATE TABLE t (id INT, %s) COMMENT='t'" % col, ops))
-    for _ in range(150 if tier_q else 3000):
+    for _ in range(150 if tier_q else 10000):
         cases.append((gen_ddl(run.rng, mysql_types), gen_ops(run.rng)))
     for s in sqlgen.corpus():
         if s.upper().startswith("CREATE TABLE") and len(s) < 3000:
